@@ -80,23 +80,25 @@ theorem wf_schedule {st : State} (h : WF st) (x : Handle) (hx : HandleOk st x) :
   all_goals first | (exact fun _ h => Or.inl h) | (exact fun _ _ h => Or.inl h) | simp
 
 /-- the running task's coroutine ends -/
-theorem wf_setDone {st : State} {t : Nat} (h : WFR st t) (o : Outcome) (l : Lib) :
-    WF { st.setTask t (fun x => { x with st := .done, outcome := some o, lib := l })
-         with running := none } := by
+theorem wf_setDone {st : State} {t : Nat} (h : WFR st t) (f : Task → Task)
+    (hf : ∀ x, (f x).st = .done ∧ (f x).hasState = x.hasState ∧ (f x).scope = x.scope ∧
+      (f x).hscope = x.hscope ∧ (f x).group = x.group ∧ (f x).startFut = x.startFut) :
+    WF { st.setTask t f with running := none } := by
+  have hf' := hf (st.tasks t)
   have hst := h.st_running
   have hlt := h.1.running_lt h.2
   apply wf_congr h.1
   case tk =>
     intro u; by_cases hu : u = t
-    · subst hu; simp; exact .inr hlt
+    · subst hu; simp [hf']; exact .inr hlt
     · simp [hu]
   case tkst =>
     intro u; by_cases hu : u = t
-    · subst hu; simp [hst]; omega
+    · subst hu; simp [hst, hf']; omega
     · simp [hu]
   case run =>
     intro u; by_cases hu : u = t
-    · subst hu; simp
+    · subst hu; simp [hf']
     · simp [hu]
       intro hu'
       have := (h.1.running_spec u).mpr hu'
